@@ -42,6 +42,33 @@ fn width_of(ty: &str) -> usize {
     }
 }
 
+/// Mutation bookkeeping for an item that is encoded outside `encode` (the split-packet framing): records its class while
+/// counting, and replaces its bytes when it is the target of the plan.
+pub fn visit_item(rng: &mut StdRng, it: &Value, normal: Vec<u8>) -> Vec<u8> {
+    let target = MUT.with(|m| {
+        let mut m = m.borrow_mut();
+        match m.as_mut() {
+            None => None,
+            Some(p) => {
+                let gi = p.next;
+                p.next += 1;
+                p.seen.push((it["k"].as_str().unwrap_or("").to_string(), it["ty"].as_str().unwrap_or("").to_string(), normal.len()));
+                match p.target {
+                    Some((ti, sub)) if ti == gi => Some((p.desc.clone(), sub)),
+                    _ => None,
+                }
+            }
+        }
+    });
+    if let Some((desc, sub)) = target {
+        if let Some(m) = mutate_item(rng, it, &desc, sub, &normal) {
+            MUT.with(|p| p.borrow_mut().as_mut().unwrap().applied = true);
+            return m;
+        }
+    }
+    normal
+}
+
 /// bytes of a mutated item, None = the descriptor does not change this item's encoding
 fn mutate_item(rng: &mut StdRng, it: &Value, desc: &Value, sub: usize, normal: &[u8]) -> Option<Vec<u8>> {
     let op = desc["op"].as_str()?;
